@@ -17,8 +17,8 @@ ASSUMPTIONS = ["each operation is applied with barriers (response handled <=> Re
 class Part:
     NAME = "sys"
     ENGINE = "sys"
-    IMPORTS = sysgen.IMPORTS
-    FN = "sys_check"
+    IMPORTS = sysgen.IMPORTS + "\nFrom Xds Require Import Model.FullView."
+    FN = "sys_check_full"
     TY = "sys_case"
     SHARD = 25
     HARNESS_SHARDS = 16
@@ -44,8 +44,9 @@ class Part:
 
     @staticmethod
     def PROJECT(v, c, o):
-        (cache, lookup, reqs, watched, acks, table, closed, s1, s2, s3, s4, s10, s19) = v
-        return (cache and lookup and table, s1)
+        (cache, lookup, reqs, watched, acks, table, closed, s1, s2, s3, s4, s10, s19, sfull) = v
+        # s1: the fold kv_step (C01_refinement); sfull: the complete per-key fold fv_step (C01_refinement_full)
+        return (cache and lookup and table, s1 and sfull)
 
     @classmethod
     def model_view(cls, c, o, tier):
